@@ -66,7 +66,7 @@ class DaggerGate(
             to the conjugate transpose of the derivative.
         """
         if hasattr(self, 'utry'):
-            return np.array([])
+            return np.zeros((0, self.dim, self.dim), dtype=np.complex128)
 
         grads = self.gate.get_grad(params)
         return np.transpose(grads.conj(), (0, 2, 1))
@@ -81,7 +81,9 @@ class DaggerGate(
         See :class:`~bqskit.ir.gate.Gate` for more info.
         """
         if hasattr(self, 'utry'):
-            return self.utry, np.array([])
+            return self.utry, np.zeros(
+                (0, self.dim, self.dim), dtype=np.complex128,
+            )
 
         utry, grads = self.gate.get_unitary_and_grad(params)
         return utry.dagger, np.transpose(grads.conj(), (0, 2, 1))
